@@ -5,6 +5,8 @@
    lemmas: Codec/GroupProofs.v; shipped dictionaries: Codec/GroupShipped.v over Gen/Dicts (area dict). *)
 From Coq Require Import ZArith List Bool Permutation.
 From QF Require Import Base.Res Base.Bytes Codec.Group Codec.GroupProofs Codec.GroupShipped.
+From QF Require Import Spec.FixStd Codec.TagValue Codec.FieldMap Codec.Build Codec.Parse Codec.ParseProofs Codec.Scan.
+From QF Require Import Codec.GroupMulti.
 From QF Require Import Dict.Xml Gen.Dicts.Index.
 Import ListNotations.
 Open Scope Z_scope.
@@ -161,3 +163,60 @@ Example c13_missing_delimiter_refuted :
   exists T t g rest, rg_wf_template T = true /\ rg_fits T g = false /\
     rg_read T (rg_write T t g ++ rest) = Err RG_E_ORDER.
 Proof. exact rg_missing_delimiter_refuted. Qed.
+
+(* ---- several groups in one body (siblings back to back, or separated by plain fields) ---- *)
+
+(* Body = seg_1 ++ ... ++ seg_n ++ ps ++ rest, each segment = plain body fields (possibly NONE: the next group's
+   NumInGroup field follows the previous group directly) followed by RepeatingGroup{t, T, g}.Write().  rg_segs_ok states
+   the hypotheses of c13_in_message_dict for every segment (the "first tag behind the group" is then the next plain
+   field, the next group's tag, or the head of ps ++ rest).  Parsed with the dictionary: EVERY group reads back
+   through its template, every plain field between the groups and behind the last one is still in the body. *)
+Theorem c13_in_message_dict_groups : forall xh xt msg h3 segs ps rest res,
+  length h3 = 3%nat ->
+  rg_segs_ok xh xt msg segs (ps ++ rest) ->
+  (forall p, In p ps -> rg_plain_body_field xh xt (Some msg) p) ->
+  rg_scan_message xh xt (Some msg) (h3 ++ rg_segs_wire segs ++ ps ++ rest) = Ok res ->
+  (forall before pre t T g after, segs = before ++ RgSeg pre t T g :: after ->
+     rg_body_get_group (h3 ++ rg_segs_wire segs ++ ps ++ rest) T t res = Ok (rg_canon T g)) /\
+  (forall before pre t T g after p, segs = before ++ RgSeg pre t T g :: after -> In p pre ->
+     rg_body_has (fst p) res = true) /\
+  (forall p, In p ps -> rg_body_has (fst p) res = true).
+Proof. exact rg_dict_message_groups. Qed.
+
+(* the instance "a group followed DIRECTLY by another repeating group", spelled out *)
+Theorem c13_in_message_dict_two_groups : forall xh xt msg T1 t1 g1 T2 t2 g2 h3 pre ps rest res,
+  length h3 = 3%nat ->
+  rg_def_lookup t1 msg = Some (rg_def_of_item (RgGrp t1 T1)) ->
+  rg_def_lookup t2 msg = Some (rg_def_of_item (RgGrp t2 T2)) ->
+  rg_wf_template T1 = true -> rg_fits T1 g1 = true ->
+  rg_wf_template T2 = true -> rg_fits T2 g2 = true ->
+  ~ In t2 (rg_all_tags T1) ->
+  (forall f, hd_error (ps ++ rest) = Some f -> ~ In (fst f) (rg_all_tags T2)) ->
+  (forall x, In x (t1 :: rg_all_tags T1) -> rg_plain xh xt x) ->
+  (forall x, In x (t2 :: rg_all_tags T2) -> rg_plain xh xt x) ->
+  (forall p, In p (pre ++ ps) -> rg_plain_body_field xh xt (Some msg) p) ->
+  ~ In t1 (map fst (rg_write T2 t2 g2 ++ ps ++ rest)) ->
+  ~ In t2 (map fst (ps ++ rest)) ->
+  let w := h3 ++ pre ++ rg_write T1 t1 g1 ++ rg_write T2 t2 g2 ++ ps ++ rest in
+  rg_scan_message xh xt (Some msg) w = Ok res ->
+  rg_body_get_group w T1 t1 res = Ok (rg_canon T1 g1) /\
+  rg_body_get_group w T2 t2 res = Ok (rg_canon T2 g2) /\
+  forall p, In p (pre ++ ps) -> rg_body_has (fst p) res = true.
+Proof. exact rg_dict_message_two_groups. Qed.
+
+(* every wire field of a written group carries the group's tag or a tag of the template tree *)
+Theorem c13_write_tags : forall T t g f, rg_fits T g = true -> In f (rg_write T t g) -> In (fst f) (t :: rg_all_tags T).
+Proof. exact rg_write_tags. Qed.
+
+(* non-vacuity: NoAllocs(78), nested two levels, directly followed by NoPartyIDs(453), then Text(58) *)
+Example c13_ex_two_groups :
+  length rg_ex_h3 = 3%nat /\
+  rg_segs_ok [] [] rg_ex2_msgdef [RgSeg [(11, [105])] 78 rg_ex_tmpl rg_ex_group; RgSeg [] 453 rg_ex2_tmpl rg_ex2_group]
+             ([(58, [116])] ++ [(10, [48; 48; 48])]) /\
+  (forall p, In p [(58, [116])] -> rg_plain_body_field [] [] (Some rg_ex2_msgdef) p) /\
+  exists res, rg_scan_message [] [] (Some rg_ex2_msgdef) rg_ex2_wire = Ok res /\
+              rg_body_get_group rg_ex2_wire rg_ex_tmpl 78 res = Ok rg_ex_group /\
+              rg_body_get_group rg_ex2_wire rg_ex2_tmpl 453 res = Ok rg_ex2_group /\
+              rg_body_has 58 res = true /\ rg_body_has 11 res = true /\
+              rg_body_lookup 78 res = Some (4%nat, 11%nat) /\ rg_body_lookup 453 res = Some (15%nat, 8%nat).
+Proof. exact rg_ex2_hyps. Qed.
